@@ -130,7 +130,7 @@ def member_table(body):
     res = {}
     for c in top_level_chunks(body):
         head = c.split("=")[0].split("{")[0]
-        if "(" in head or c.startswith(("using ", "typedef ", "friend ", "template", "class ", "struct ", "enum ")):
+        if "(" in head or re.search(r"\boperator\b", c) or c.startswith(("using ", "typedef ", "friend ", "template", "class ", "struct ", "enum ")):
             continue  # a function or a nested type
         decl = re.split(r"=|\{", c, 1)[0].strip()
         m = re.match(r"^(?P<pre>.*?)(?P<name>\w+)$", decl, flags=re.S)
